@@ -264,6 +264,11 @@ def _long_history(case, R):
             except Exception as e:
                 R.exception('c12.methods_sign', e, {'system': system, 'method': m, 'history': 'long'}, T=T, x=x, phase=ph, query=nq)
                 continue
+            if system == 'almgsi' and m == 'approximate':
+                # stoichiometric precipitates: the approximate method equals the sampling value (measured 1e-8 J/mol)
+                R.worst('c12_long_history_approx_minus_sampling', abs(dg - r))
+                R.check('c12.methods_value', abs(dg - r) <= 1.0, {'system': system, 'method': m, 'history': 'long', 'stoichiometric': True},
+                        T=T, x=x, phase=ph, value=dg, sampling=r, query=nq)
             if abs(r) > far:
                 nfar += 1
                 ok = np.isfinite(dg) and np.sign(dg) == np.sign(r)
